@@ -133,8 +133,9 @@ M("c02-sync-validators-after-cond", ["C02", "C01"], ["C02.order", "C01.reject"],
             return False, None
         self.sm._callbacks.call(transition.validators.key, *args, **kwargs)
 """))
-M("c02-trigger-initial-literal-mismatch", "C02", ["C02.initial"],
-  E(ASYNC, """        if trigger_data.event == "__initial__":""", """        if trigger_data.event == "__init__":"""))
+M("c02-trigger-initial-test-on-other-trigger", ["C02", "C11"], ["C02.initial", "C11.who"],
+  E(ASYNC, """        if trigger_data is self._initial_trigger:""", """        if trigger_data.event == "__init__":"""),
+  note="the async engine no longer routes the initial trigger to the pseudo-transition")
 
 B("b-activate-split-into-helpers", ["C01", "C02", "C04", "C05", "C14"],
   E(SYNC, """        result = self.sm._callbacks.call(transition.before.key, *args, **kwargs)
@@ -558,7 +559,7 @@ M("c14-call-filters-none", "C14", ["C14.collect"],
         return [r for r in results if r is not None]"""))
 B("b-trigger-returns-result-of-rejected", ["C14", "C01"],
   E(SYNC, "        return result if executed else None", "        return result"),
-  E(SYNC, "        executed = False\n        if trigger_data.event", "        executed = False\n        result = None\n        if trigger_data.event"),
+  E(SYNC, "        executed = False\n        if trigger_data is", "        executed = False\n        result = None\n        if trigger_data is"),
   note="the result component of a rejected activation is None, so this is behaviour-preserving")
 M("c14-on-result-dropped", "C14", ["C14.flow"],
   E(SYNC, "        result += self.sm._callbacks.call(transition.on.key, *args, **kwargs)\n",
@@ -993,6 +994,17 @@ M("c07-f23-reintroduced", ["C07", "C16"], ["C07.cachekey", "C16.cachekey"],
 M("c07-key-is-code-of-outer-object-only", ["C07", "C16"], ["C07.cachekey", "C16.cachekey"],
   E("statemachine/signature.py", "        return hash((method.__qualname__, method.__code__, wrapped_code))", "        return hash(method.__code__)"),
   note="seeded s07-3 re-expressed on the repaired tree")
+
+M("c15-f25-reintroduced", ["C15", "C08", "C01"], ["C15.any", "C08.conj", "C01.expected"],
+  E("statemachine/transition.py", "from copy import copy\n", "from copy import deepcopy\n"),
+  E("statemachine/transition.py", "            new_spec = copy(spec)\n", "            new_spec = deepcopy(spec)\n"),
+  note="F25: bound-method guards of from_.any() evaluated on a clone")
+
+M("c11-f26-reintroduced", "C11", ["C11.who"],
+  E("statemachine/engines/sync.py", "        if trigger_data is self._initial_trigger:", '        if trigger_data.event == "__initial__":'),
+  note="F26: send('__initial__') re-enters the initial state")
+M("c11-start-forgets-its-trigger", "C11", ["C11.who"],
+  E("statemachine/engines/base.py", "        self._initial_trigger = trigger_data\n", ""))
 
 # ----------------------------------------------------------------------------------------- C17
 M("c17-clone-resets-allow-event", "C17", ["C17.carry"],
